@@ -36,6 +36,7 @@ def main():
         sys.exit(mod.replay(a.replay))
     chk = core.Check(a.pid, tier, seed)
     chk.no_build = a.no_build
+    chk.dev_run = a.no_build       # evidence of a development run (no Coq build) is kept apart
     try:
         mod.run(chk)
     except Exception:
